@@ -870,6 +870,30 @@ fn main() {
         }
     }
 
+    // (3b) machine integers with entries up to 10^9 on small shapes (2x2, 2x3, 3x2, 3x3): the
+    //      exact answer often still fits an i64; expected: agreement with the model, or the
+    //      known overflow clause (F-C18-overflow), or exclusion when the answer cannot fit
+    let mut rng = ctx.rng(31);
+    for _ in 0..(if th { 4000 } else { 150 }) {
+        for (nr, nc) in [(2usize, 2usize), (2, 3), (3, 2), (3, 3)] {
+            let mag: i64 = [1_000, 1_000_000, 1_000_000_000][rng.below(3)];
+            let mut a: IMat = (0..nr).map(|_| (0..nc).map(|_| rng.range(-mag, mag)).collect()).collect();
+            match rng.below(4) {
+                0 => { a[nr - 1] = a[0].clone(); }                       // dependent rows
+                1 => { for r in a.iter_mut() { r[nc - 1] = 2 * r[0]; } } // dependent columns
+                _ => {}
+            }
+            let x0 = random_matrix(&mut rng, nc, 1, Ent::Tiny);
+            let rhss: Vec<IMat> = vec![
+                (0..nr).map(|i| vec![(0..nc).map(|l| a[i][l] as i128 * x0[l][0] as i128).sum::<i128>() as i64]).collect(),
+                random_matrix(&mut rng, nr, 1, Ent::Small),
+            ];
+            let tags = format!("nt shape={nr}x{nc} ent=large-i64 kind=random");
+            vec_ops::<i64>(&mut ctx, "i", "", &tags, &a, &rhss);
+            twin_dispatch!(i64, &mut ctx, "i", "", &tags, &a, &rhss);
+        }
+    }
+
     // (4) p-adic solver: integer systems, mostly non-singular modulo the prime
     let mut rng = ctx.rng(40);
     modsolve_case(&mut ctx, &vec![vec![PRIME]], &vec![vec![1]], "singular-mod-p");
